@@ -58,7 +58,12 @@ func (m *MonAPI) SubscribeToEvents(s datatransfer.Subscriber) datatransfer.Unsub
 	m.nextSub++
 	m.subs[id] = s
 	m.Subscribes++
+	yield := m.Yield
 	m.mu.Unlock()
+	if yield {
+		// the subscriber is live before the caller has the unsubscribe function in hand
+		core.Point("stmt", "monapi:subscribe:return")
+	}
 	return func() {
 		m.mu.Lock()
 		if _, ok := m.subs[id]; ok {
